@@ -1,6 +1,7 @@
 package main
 
 import (
+	"hash/fnv"
 	"bytes"
 	"context"
 	"fmt"
@@ -31,6 +32,12 @@ type Engine struct {
 	timeoutS int
 	thorough bool
 	dumpDir string
+	pkgOnce    sync.Once
+	pkgPathIdx map[string]*ssa.Package
+	typeCache  sync.Map
+	noBatch   bool // -nobatch: every function gets its own solver process
+	batchOnce sync.Once
+	batchCh   chan batchReq
 	noGroup bool // -nogroup: check every postcondition clause on its own in the first pass
 	noSlice bool // -noslice: send the whole function VC with every obligation
 	loadS   float64
@@ -124,16 +131,36 @@ func (e *Engine) pkgByName(name string) *ssa.Package {
 }
 
 func (e *Engine) pkgByPath(path string) *ssa.Package {
-	for _, p := range e.prog.AllPackages() {
-		if p.Pkg.Path() == path || p.Pkg.Path() == modPrefix+path {
-			return p
+	e.pkgOnce.Do(func() {
+		e.pkgPathIdx = map[string]*ssa.Package{}
+		for _, p := range e.prog.AllPackages() {
+			e.pkgPathIdx[p.Pkg.Path()] = p
 		}
+	})
+	if p, ok := e.pkgPathIdx[path]; ok {
+		return p
 	}
-	return nil
+	return e.pkgPathIdx[modPrefix+path]
 }
 
 // typeByName resolves "pkg.T", "*pkg.T", "path/to/pkg.T".
 func (e *Engine) typeByName(s string) types.Type {
+	if v, ok := e.typeCache.Load(s); ok {
+		if v == nil {
+			return nil
+		}
+		return v.(types.Type)
+	}
+	t := e.typeByName0(s)
+	if t == nil {
+		e.typeCache.Store(s, nil)
+	} else {
+		e.typeCache.Store(s, t)
+	}
+	return t
+}
+
+func (e *Engine) typeByName0(s string) types.Type {
 	ptr := false
 	if strings.HasPrefix(s, "*") {
 		ptr = true
@@ -433,7 +460,7 @@ func (vc *FuncVC) scriptShard(only *Obligation, withModel bool, shard, nshards i
 			continue
 		}
 		ob := it.ob
-		if only == nil && !vc.eng.noGroup && ob.Kind == "post" && ob.Expect == "unsat" && ob.Verdict != "no-contract" {
+		if only == nil && !vc.eng.noGroup && (ob.Kind == "post" || ob.Kind == "frame") && ob.Expect == "unsat" && ob.Verdict != "no-contract" {
 			// collect the group; lines in between are definitions of named terms: emitted first
 			var members []*Obligation
 			j := i
@@ -442,7 +469,7 @@ func (vc *FuncVC) scriptShard(only *Obligation, withModel bool, shard, nshards i
 					continue
 				}
 				o2 := items[j].ob
-				if o2.Kind != "post" || o2.Expect != "unsat" || o2.pc.S != ob.pc.S {
+				if (o2.Kind != "post" && o2.Kind != "frame") || o2.Expect != "unsat" || o2.pc.S != ob.pc.S {
 					break
 				}
 				members = append(members, o2)
@@ -497,7 +524,7 @@ func (vc *FuncVC) scriptShard(only *Obligation, withModel bool, shard, nshards i
 			break
 		}
 		// (postconditions at returns and invariants at back edges end their path: nothing after them can use them)
-		if ob.Expect == "unsat" && ob.Kind != "nocontract" && ob.Kind != "post" && ob.Kind != "inv.keep" && ob.Kind != "inv.init" && rel(ob.blk) {
+		if ob.Expect == "unsat" && ob.Kind != "nocontract" && ob.Kind != "post" && ob.Kind != "frame" && ob.Kind != "inv.keep" && ob.Kind != "inv.init" && rel(ob.blk) {
 			fmt.Fprintf(&b, "(assert %s)\n", imp(ob.pc, ob.f).S)
 		}
 	}
@@ -602,17 +629,119 @@ func parseResults(out string) map[int]string {
 	return res
 }
 
-func (vc *FuncVC) solve(tmpdir string) {
+// solveBatched: small functions (few obligations) share one solver process for their first pass: each
+// function's script is run between (push 1) and (pop 1). Obligations not decided as expected there go
+// through the usual second pass (alone, on every solver).
+type batchReq struct {
+	vc   *FuncVC
+	done chan struct{}
+}
+
+func (e *Engine) solveBatched(vc *FuncVC, tmpdir string) {
+	if e.thorough || e.dumpDir != "" || e.noBatch || len(vc.obls) == 0 || len(vc.obls) > 12 {
+		vc.solve(tmpdir)
+		return
+	}
+	e.batchOnce.Do(func() {
+		e.batchCh = make(chan batchReq, 256)
+		go e.batcher(tmpdir)
+	})
+	req := batchReq{vc, make(chan struct{})}
+	e.batchCh <- req
+	<-req.done
+	vc.solve(tmpdir)
+}
+
+func (e *Engine) batcher(tmpdir string) {
+	sem := make(chan struct{}, 16)
+	n := 0
+	for {
+		first := <-e.batchCh
+		batch := []batchReq{first}
+		timer := time.After(40 * time.Millisecond)
+	collect:
+		for len(batch) < 40 {
+			select {
+			case r := <-e.batchCh:
+				batch = append(batch, r)
+			case <-timer:
+				break collect
+			}
+		}
+		n++
+		id := n
+		sem <- struct{}{}
+		go func(batch []batchReq) {
+			defer func() { <-sem }()
+			e.runBatch(batch, tmpdir, id)
+		}(batch)
+	}
+}
+
+func (e *Engine) runBatch(batch []batchReq, tmpdir string, id int) {
+	defer func() {
+		for _, r := range batch {
+			close(r.done)
+		}
+	}()
+	var b strings.Builder
+	b.WriteString("(set-option :produce-models true)\n(set-logic ALL)\n")
+	nob := 0
+	for k, r := range batch {
+		vc := r.vc
+		vc.prepareSolve()
+		sc := vc.script(nil, false)
+		vc.fullScript = sc
+		sc = strings.Replace(sc, "(set-option :produce-models true)\n", "", 1)
+		sc = strings.Replace(sc, "(set-logic ALL)\n", "", 1)
+		fmt.Fprintf(&b, "(echo \"@VC %d\")\n(push 1)\n%s(pop 1)\n", k, sc)
+		nob += len(vc.obls)
+	}
+	tmo := e.timeoutS
+	out, secs := runSolver(solvers[0], b.String(), tmo, time.Duration(tmo*nob+20)*time.Second, tmpdir, fmt.Sprintf("batch%d", id))
+	// split the output per function
+	parts := map[int][]string{}
+	cur := -1
+	for _, ln := range strings.Split(out, "\n") {
+		t := strings.Trim(strings.TrimSpace(ln), "\"")
+		if strings.HasPrefix(t, "@VC ") {
+			fmt.Sscanf(t, "@VC %d", &cur)
+			continue
+		}
+		if cur >= 0 {
+			parts[cur] = append(parts[cur], ln)
+		}
+	}
+	for k, r := range batch {
+		o := strings.Join(parts[k], "\n")
+		r.vc.preRes = parseResults(o)
+		r.vc.preOut = o
+		r.vc.preSecs = secs * float64(len(r.vc.obls)) / float64(nob+1)
+	}
+}
+
+// prepareSolve numbers the obligations and samples the reachability checks (quick tier).
+func (vc *FuncVC) prepareSolve() {
+	if vc.prepared {
+		return
+	}
+	vc.prepared = true
 	for i, ob := range vc.obls {
 		ob.idx = i
 		ob.PerSolver = map[string]string{}
 	}
+}
+
+func (vc *FuncVC) solve(tmpdir string) {
+	vc.prepareSolve()
 	if len(vc.obls) == 0 {
 		return
 	}
 	tag := smtIdent(vc.prop + "_" + vc.key)
-	if len(tag) > 120 {
-		tag = tag[:120]
+	if len(tag) > 100 { // keep file names short but unique (two long keys may share a 100-character prefix)
+		h := fnv.New32a()
+		h.Write([]byte(tag))
+		tag = fmt.Sprintf("%s_%08x", tag[:100], h.Sum32())
 	}
 	// reachability of returns is evidence against vacuity, not a proof obligation; "sat" answers in the
 	// presence of quantifiers are the slowest queries, so the quick tier samples them (thorough: all)
@@ -636,7 +765,10 @@ func (vc *FuncVC) solve(tmpdir string) {
 			}
 		}
 	}
-	full := vc.script(nil, false)
+	full := vc.fullScript
+	if full == "" {
+		full = vc.script(nil, false)
+	}
 	if vc.eng.dumpDir != "" {
 		os.WriteFile(filepath.Join(vc.eng.dumpDir, tag+".smt2"), []byte(full), 0644)
 	}
@@ -653,7 +785,10 @@ func (vc *FuncVC) solve(tmpdir string) {
 	res := map[int]string{}
 	var out string
 	var secs float64
-	if nsh == 1 {
+	if vc.preRes != nil {
+		// first pass already done in a batch with other small functions (see solveBatched)
+		res, out, secs = vc.preRes, vc.preOut, vc.preSecs
+	} else if nsh == 1 {
 		out, secs = runSolver(solvers[0], full, tmo, time.Duration(tmo*len(vc.obls)+10)*time.Second, tmpdir, tag)
 		res = parseResults(out)
 	} else {
